@@ -619,6 +619,11 @@ func (sh *Shell) runOp(r *shellRun, w []string) (int, string) {
 	if o.Chunks < 1 {
 		o.Chunks = 1
 	}
+	for _, other := range sh.Insts {
+		if other.Running && other.Cwd == o.Cwd && strings.Contains(o.Cwd, "_scipipe_tmp") {
+			s.InvViol = append(s.InvViol, fmt.Sprintf("step %d: commands of two tasks run in the same temp directory %s at the same time: %s and %s", s.Steps, o.Cwd, other.Key, o.Key))
+		}
+	}
 	sh.Insts = append(sh.Insts, o)
 	o.Running = true
 	o.StartStep = s.Steps
